@@ -28,6 +28,20 @@ def seeded(rnd, n):
             want = (t1 > t2) - (t1 < t2)
             pre = "v" if e == "golang" else ""
             jobs.append({"k": "cmp", "eco": e, "kind": "tuple", "a": pre + ".".join(map(str, t1)), "b": pre + ".".join(map(str, t2)), "want": want})
+        # two positions exchanged between a narrow and a wide number (2.10 vs 10.2): same length, same digits, so
+        # every text-based shortcut gets it wrong while the tuples differ at the first position
+        for _ in range(max(8, n // 6)):
+            ks = [k for k in ARITIES.get(e, [2, 3, 4, 5]) if k >= 2]
+            if not ks: continue
+            k = rnd.choice(ks)
+            i, j = sorted(rnd.sample(range(k), 2))
+            lo, hi = rnd.choice([(2, 10), (9, 10), (9, 100), (99, 1000), (999, 1000), (9, 65535), (99999, 100000)])
+            t1 = [rnd.choice([0, 1, 2, 9, 10]) for _ in range(k)]; t2 = list(t1)
+            t1[i], t1[j], t2[i], t2[j] = lo, hi, hi, lo
+            if e == "github" and any(len(t) == 3 and 1000 <= t[0] <= 9999 and t[1] <= 99 and t[2] <= 99 for t in (t1, t2)):
+                continue
+            pre = "v" if e == "golang" else ""
+            jobs.append({"k": "cmp", "eco": e, "kind": "tuple", "a": pre + ".".join(map(str, t1)), "b": pre + ".".join(map(str, t2)), "want": -1})
     return jobs
 
 def check(run):
